@@ -9,6 +9,8 @@
    frame), [run_conn] (both ends of a connection), and the checker.  A byte string is a
    [list N]; [bytes_ok] says every element is < 256.
 
+   model/VpackNet.v: the sender / receiver wrapper of network/msgCompressor.go (theorems 13-16).
+
    Not a theorem (tested only, see checks/C42.py): "never a crash" of the Go code on malformed
    frames; what the model can say about malformed input is [refs_in_bounds].  DESIGN.md's
    [malformed_rejected_or_faithful] is false as worded (a literal for a key that is already
@@ -16,8 +18,8 @@
 From Coq Require Import NArith List Bool String.
 Import ListNotations.
 From Verif.lib Require Import Term.
-From Verif.model Require Import Vpack VpackSpec.
-From Verif.proofs Require Import VpackBase VpackStateful VpackParse VpackStateless VpackStream.
+From Verif.model Require Import Vpack VpackSpec VpackNet.
+From Verif.proofs Require Import VpackBase VpackStateful VpackParse VpackStateless VpackStream VpackNetProofs.
 Open Scope N_scope.
 
 (* 1. Stateless layer: for EVERY byte string the parser accepts, decompression gives back
@@ -130,6 +132,50 @@ Theorem spec_v_sound : forall m x f ds dv es dd,
 Proof. exact spec_v_meaning. Qed.
 Print Assumptions spec_v_sound.
 
+(* ---- the real sender / receiver wrapper (network/msgCompressor.go, model/VpackNet.v) ----
+   StatefulEncoder.Compress updates its tables while parsing and can fail afterwards, so a failed
+   Compress does NOT leave the encoder state unchanged.  What keeps the two ends in step is the
+   abort rule of wsPeerMsgCodec.compress / writeLoopSendMsg (flag cleared, VP abort sent, vote
+   sent as plain AV).  [ninv]: while the sender's flag is set, the receiver's flag is set and
+   encoder state = decoder state.  [transparent data d]: a delivery d for payload data is a
+   control outcome or exactly what the plain AV path delivers for data. *)
+
+(* 13. one payload, ANY bytes (compressible vote, raw msgpack fallback, damaged frame, garbage):
+       the invariant is preserved and nothing else than the plain-AV result is ever delivered *)
+Theorem net_step_in_sync : forall s data,
+  ninv s -> bytes_ok data ->
+  ninv (snd (net_step s data)) /\ Forall (transparent data) (snd (fst (net_step s data))).
+Proof. exact net_step_inv. Qed.
+Print Assumptions net_step_in_sync.
+
+(* 14. every history of payloads on a fresh connection of every table size <= 65536 *)
+Theorem net_in_sync : forall n s0 l,
+  net_init n = Some s0 -> n <= 65536 -> Forall bytes_ok l ->
+  ninv (snd (net_run s0 l)) /\
+  Forall2 (fun data ds => Forall (transparent data) ds) l (fst (net_run s0 l)).
+Proof. exact (fun n s0 l H Hn HF => net_sync_lemma l s0 (ninv_init n s0 H Hn) HF). Qed.
+Print Assumptions net_in_sync.
+
+(* 15. a vote the stateless encoder accepts is delivered exactly once and byte for byte,
+       whether the stateful stream is still on or was aborted earlier *)
+Theorem net_lossless : forall s m x,
+  ninv s -> bytes_ok m -> compress_vote true m = Some x ->
+  broadcast_data m = x /\ snd (fst (net_step s x)) = [DBytes m].
+Proof. exact net_lossless_lemma. Qed.
+Print Assumptions net_lossless.
+
+(* 16. unchanged tree, outside the stateful stream: vpackCompressVote's msgpack fallback copies
+       into a MaxCompressedVoteSize buffer; a 603-byte vote with sig.ps != 0 (refused by the
+       stateless encoder) is delivered cut to 502 bytes *)
+Theorem fallback_truncates_refuted :
+  let m := long_uncompressible_vote in
+  all_bytes m = true /\ List.length m = 603%nat /\ compress_vote true m = None /\
+  (exists s0, net_init 16 = Some s0 /\
+     snd (fst (net_step s0 (broadcast_data m))) = [DNone; DBytes (firstn 502 m)]) /\
+  firstn 502 m <> m.
+Proof. exact fallback_truncates_witness. Qed.
+Print Assumptions fallback_truncates_refuted.
+
 (* ---- non-vacuity ---- *)
 (* a vote with every optional field, three of the uints non-canonical, is well-formed, accepted,
    and goes through a fresh 16-entry connection three times exactly (literal, then references) *)
@@ -154,3 +200,13 @@ Proof. intros s0 H. vm_compute in H. inversion H; subst. vm_compute. reflexivity
 Example ex_sizes : (match new_state 16, new_state 2048, new_state 8, new_state 24 with
                     | Some _, Some _, None, None => true | _, _, _, _ => false end) = true.
 Proof. vm_compute. reflexivity. Qed.
+(* the invariant is not vacuous: after two compressible votes the sender's flag is still set
+   (and the states are equal); a frame with one extra byte makes Compress fail at its last check,
+   the stream is aborted and the payload still arrives as plain AV *)
+Example ex_net : forall s0, net_init 16 = Some s0 ->
+  let x := frame witness_vote2 in
+  let r := net_run s0 [x; x; x ++ [0]; x] in
+  fst r = [[DBytes (encode_msgp witness_vote2)]; [DBytes (encode_msgp witness_vote2)];
+           [DNone; DBytes (x ++ [0])]; [DBytes (encode_msgp witness_vote2)]] /\
+  n_son (snd (net_run s0 [x; x])) = true /\ n_son (snd r) = false /\ n_ron (snd r) = false.
+Proof. intros s0 H. vm_compute in H. inversion H; subst. vm_compute. repeat split; reflexivity. Qed.
